@@ -224,8 +224,14 @@ bool ossOperationsFacet::SaveOperationResult(
 ) {
   auto& opHandle = operations.at(pid);
   assert(opHandle != nullptr);
-  const auto guard = core.DndGuard();
-  if (!core.Src().InputData(pid, std::move(opResult.value))) {
+  const auto oldHash = core.Src()(pid)->coreHash;
+  auto inputDone = false;
+  {
+    // Note: source notifications are ignored only while the new data is written
+    const auto guard = core.DndGuard();
+    inputDone = core.Src().InputData(pid, std::move(opResult.value));
+  }
+  if (!inputDone) {
     opHandle->broken = true;
     return false;
   } else {
@@ -235,6 +241,9 @@ bool ossOperationsFacet::SaveOperationResult(
     for (const auto& child : core.Graph().ChildrenOf(pid)) {
       const auto index = core.Graph().ParentIndex(pid, child).value(); // NOLINT(bugprone-unchecked-optional-access)
       UpdateChild(child, index, old2New);
+    }
+    if (oldHash != core.Src()(pid)->coreHash) {
+      core.OnCoreChange(pid); // the result has another formal content: its children are outdated
     }
     return true;
   }
